@@ -154,7 +154,9 @@ impl DiskRowset {
                     let mut first_key: &[u8] = &index.first_key;
                     let first_val: i32 = PrimitiveFixedWidthEncode::decode(&mut first_key);
 
-                    if first_val > begin_val {
+                    // a block whose first key equals `begin_val` may be preceded by rows with the
+                    // same key at the end of the previous block: start before it
+                    if first_val >= begin_val {
                         break;
                     }
                     pre_block_first_key = index.first_rowid;
